@@ -150,6 +150,24 @@ var routes = ev.Register(&ev.P[momentCase]{
 				}
 			}
 		}
+		// hour objects of another day, then a refused hour-object constructor call for this day (minute 60), then this
+		// day's hour objects again: refused calls leave nothing behind
+		if (t.D+t.H)%4 == 0 {
+			o := l.Next(-3 - t.Mi%5)
+			_ = calendar.NewLunarTime(o.GetYear(), o.GetMonth(), o.GetDay(), 10, 30, 0).GetGanZhi()
+			func() {
+				defer func() { _ = recover() }()
+				calendar.NewLunarTime(l.GetYear(), l.GetMonth(), l.GetDay(), 10, 60, 0)
+			}()
+			func() {
+				defer func() { _ = recover() }()
+				calendar.NewLunarTime(l.GetYear(), l.GetMonth(), l.GetDay(), 24, 0, 0)
+			}()
+			lt2 := calendar.NewLunarTime(l.GetYear(), l.GetMonth(), l.GetDay(), t.H, t.Mi, t.S)
+			if lt2.GetGanZhi() != l.GetTimeInGanZhi() || lt2.GetTianShen() != l.GetTimeTianShen() || lt2.GetNineStar().GetIndex() != l.GetTimeNineStar().GetIndex() || l.GetTime().GetGanZhi() != l.GetTimeInGanZhi() {
+				return fail("hour object built after a refused constructor call vs the lunar date's own hour accessors", lt2.GetGanZhi()+"/"+lt2.GetTianShen(), l.GetTimeInGanZhi()+"/"+l.GetTimeTianShen())
+			}
+		}
 		// the hour object's slot bounds bracket the moment and lie in the same slot as the hour pillar's branch
 		hm := fmt.Sprintf("%02d:%02d", t.H, t.Mi)
 		lo, hi := lt.GetMinHm(), lt.GetMaxHm()
